@@ -71,13 +71,11 @@ func (c *typeComparison) equalTypes(a, b TypeId) bool {
 		return isFileTypeName(a.Tname, c.mine) &&
 			isFileTypeName(b.Tname, c.theirs)
 	}
-	sa, ok := c.mine.Get(TypeId{Tname: a.Tname}).(*StructType)
-	if !ok {
-		return true
-	}
-	sb, ok := c.theirs.Get(TypeId{Tname: b.Tname}).(*StructType)
-	if !ok {
-		return false
+	sa, aok := c.mine.Get(TypeId{Tname: a.Tname}).(*StructType)
+	sb, bok := c.theirs.Get(TypeId{Tname: b.Tname}).(*StructType)
+	if !aok || !bok {
+		// The same name must not be a struct on one side only.
+		return aok == bok
 	}
 	if _, ok := c.visiting[a.Tname]; ok {
 		return true
